@@ -79,13 +79,14 @@ class C10Mixin(object):
         f = pt.formula(s, table=self.table(src))
         before = self._membership(src, f)
         kw = {} if dst is None else {"table": self.table(dst)}
+        res = None
         try:
             if op == "formula":
-                pt.formula(f, **kw)
+                res = pt.formula(f, **kw)
             elif op == "mix_weight":
-                pt.mix_by_weight(f, 2, "H2O@1", 1, **kw)
+                res = pt.mix_by_weight(f, 2, "H2O@1", 1, **kw)
             elif op == "mix_volume":
-                pt.mix_by_volume(f, 2, "H2O@1", 1, density=1.0, **kw) if f.density is None else \
+                res = pt.mix_by_volume(f, 2, "H2O@1", 1, density=1.0, **kw) if f.density is None else \
                     pt.mix_by_volume(f, 2, "H2O@1", 1, **kw)
             elif op == "nsld":
                 pt.neutron_sld(f, density=1.0, wavelength=4.75, **kw)
@@ -99,7 +100,10 @@ class C10Mixin(object):
         except Exception as e:  # noqa: BLE001
             raised = type(e).__name__
         after = self._membership(src, f)
-        return {"before": before, "after": after, "raised": raised}
+        # were the caller's atoms kept (by identity) in what came back?  Only judged when no table was
+        # named: nobody asked for the formula to be moved to another table
+        kept = None if res is None else all(any(a is b for b in res.atoms) for a in f.atoms)
+        return {"before": before, "after": after, "raised": raised, "kept": kept}
 
     def _formula_owned(self, src, s, op, dst):
         """The caller owns the Formula it was handed: it edits that object in place (+=, density,
